@@ -86,6 +86,18 @@ func factsC13() {
 }
 
 func factsC12() {
+	// which snappy stream writer the streamed codec uses (no padding option)
+	ctor := "unknown"
+	if g := parse("pkg/extgrpc/snappy/snappy.go"); g != nil {
+		ast.Inspect(g, func(n ast.Node) bool {
+			if c, ok := n.(*ast.CallExpr); ok && strings.Contains(callName(c), "Writer") && strings.HasPrefix(callName(c), "snappy.New") {
+				ctor = text(c)
+				return false
+			}
+			return true
+		})
+	}
+	emitStr("snappyStreamWriterCtor", "pkg/extgrpc/snappy/snappy.go newCompressor: the stream writer behind extsnappy.Compressor", ctor)
 	f := parse("pkg/store/postings_codec.go")
 	emitStr("postingsEncodeOrderTest", "pkg/store/postings_codec.go diffVarintEncodeNoHeader: the order test",
 		firstIfCond(body(fn(f, "", "diffVarintEncodeNoHeader")), "prev"))
